@@ -58,8 +58,13 @@ Definition c02_ok (fg : fgraph) (cached : list Z) (f : fdecl) (o : call_obs) : b
     (if convs_satisfiable fg cached then match co_unsat o with Some _ => true | None => false end else true).
 
 (* ---------- C03 ---------- *)
+(* a converter generator that reports an error fails the call before anything runs *)
+Definition generator_failed (o : call_obs) : bool :=
+  negb (co_ok o) && match co_err o with Some _ => true | None => false end &&
+  existsb (fun e => match e with EGen _ _ => true | _ => false end) (co_events o) &&
+  forallb (fun e => match e with EGen _ _ => true | _ => false end) (co_events o).
 Definition c03_ok (u : universe) (f : fdecl) (b : builder) (o : call_obs) : bool :=
-  if all_exact b f then
+  if all_exact b f && negb (generator_failed o) then
     negb (co_panic o) &&
     match filter (fun e => match e with EGen _ _ => false | _ => true end) (co_events o) with
     | [EExec fid args _ err] =>
